@@ -1082,14 +1082,11 @@ theorem appsLoopV1_rel (e : Env) (batch : Nat) (L : List Vault) (hL : (L.map (·
 
 /-! ### generation 1 borrows (sweep body and message) -/
 
-/-- an unflagged borrow keeps its record when it is on the safe side of the threshold the SWEEP applies (e-mode aware,
-ratio after the accrual) or the kill switch of its app is on. Generation 1 has no whitelisting for borrows. -/
+/-- an unflagged borrow keeps its record when it is on the safe side of the applicable threshold (e-mode aware, three bridge
+cases, ratio after the accrual — the ONE test of sweep and message since fix f18ae51) or the kill switch of its app is on.
+Generation 1 has no whitelisting for borrows. -/
 def KeepsB1 (e : Env) (w w' : World) : Prop :=
   ∀ b, b ∈ w.borrows → b.liquidated = false → (borrowUnsafe e b = false ∨ (e.app b.app).kill = true) → b ∈ w'.borrows
-
-/-- what the message keeps: judged against ITS threshold -/
-def KeepsBMsg1 (e : Env) (w w' : World) : Prop :=
-  ∀ b, b ∈ w.borrows → b.liquidated = false → (borrowUnsafeMsgV1 e b = false ∨ (e.app b.app).kill = true) → b ∈ w'.borrows
 
 def flagV1 (id : Nat) (n : Int) (l : List Borrow) : List Borrow :=
   l.map (fun x => if x.id == id then { x with liquidated := true, amountIn := n } else x)
@@ -1160,7 +1157,7 @@ theorem seizeBorrowV1_spec (e : Env) (sweep : Bool) (b : Borrow) (r : Dec) (w w'
 
 theorem liquidateBorrowV1_cases (e : Env) (sweep : Bool) (id : Nat) (w w' : World) (h : liquidateBorrowV1 e sweep id w = some w') :
     w' = w ∨ ∃ b r, w.borrows.find? (·.id == id) = some b ∧ b.liquidated = false ∧ (e.app b.app).kill = false ∧
-      borrowRatio e b = some r ∧ r > (if sweep then borrowThreshold b else borrowThresholdMsgV1 b) ∧
+      borrowRatio e b = some r ∧ r > borrowThreshold b ∧
       seizeBorrowV1 e sweep b r w = some w' := by
   unfold liquidateBorrowV1 at h
   split at h
@@ -1176,7 +1173,6 @@ theorem liquidateBorrowV1_cases (e : Env) (sweep : Bool) (id : Nat) (w w' : Worl
       split at h
       · cases h
       · rename_i hk
-        simp only at h
         cases hin : e.valueOf b.assetIn b.amountIn with
         | none =>
           simp only [hin] at h
@@ -1195,28 +1191,21 @@ theorem liquidateBorrowV1_cases (e : Env) (sweep : Bool) (id : Nat) (w w' : Worl
             by_cases h0 : tin = 0
             · simp only [h0, if_true] at h; cases h
             · simp only [h0, if_false] at h
-              by_cases hgt : Dec.quo tout tin > (if sweep = true then borrowThreshold b else borrowThresholdMsgV1 b)
+              by_cases hgt : Dec.quo tout tin > borrowThreshold b
               · simp only [hgt, if_true] at h
                 refine Or.inr ⟨b, _, hb, by simpa using hl, by simpa using hk, ?_, hgt, h⟩
                 unfold borrowRatio
                 simp only [hin, hout, h0, if_false]
               · simp only [hgt, if_false, Option.some.injEq] at h; exact Or.inl h.symm
 
-/-- the test a generation-1 borrow step applies: the sweep's (e-mode aware) or the message's -/
-def borrowUnsafeV1 (e : Env) (sweep : Bool) (b : Borrow) : Bool :=
-  if sweep then borrowUnsafe e b else borrowUnsafeMsgV1 e b
-
-theorem borrowUnsafeV1_of (e : Env) (sweep : Bool) (b : Borrow) (r : Dec) (hr : borrowRatio e b = some r)
-    (hgt : r > (if sweep then borrowThreshold b else borrowThresholdMsgV1 b)) : borrowUnsafeV1 e sweep b = true := by
-  unfold borrowUnsafeV1
-  cases sweep with
-  | true => simp only [if_true] at hgt ⊢; unfold borrowUnsafe; simp [hr, hgt]
-  | false => simp only [Bool.false_eq_true, if_false] at hgt ⊢; unfold borrowUnsafeMsgV1; simp [hr, hgt]
+theorem borrowUnsafe_of_gt (e : Env) (b : Borrow) (r : Dec) (hr : borrowRatio e b = some r)
+    (hgt : r > borrowThreshold b) : borrowUnsafe e b = true := by
+  unfold borrowUnsafe; simp [hr, hgt]
 
 theorem liquidateBorrowV1_keeps (e : Env) (sweep : Bool) (id : Nat) (w w' : World) (hn : NodupB w)
     (h : liquidateBorrowV1 e sweep id w = some w') :
     (∀ b, b ∈ w.borrows → b.liquidated = false →
-      (borrowUnsafeV1 e sweep b = false ∨ (e.app b.app).kill = true) → b ∈ w'.borrows) ∧
+      (borrowUnsafe e b = false ∨ (e.app b.app).kill = true) → b ∈ w'.borrows) ∧
     NodupB w' ∧ w'.vaults = w.vaults ∧ w'.counter = w.counter ∧ w'.vaultBal = w.vaultBal ∧ w'.offsets = w.offsets := by
   cases liquidateBorrowV1_cases e sweep id w w' h with
   | inl h => rw [h]; exact ⟨fun b hb _ _ => hb, hn, rfl, rfl, rfl, rfl⟩
@@ -1224,7 +1213,7 @@ theorem liquidateBorrowV1_keeps (e : Env) (sweep : Bool) (id : Nat) (w w' : Worl
     obtain ⟨b0, r0, hf, _, hk0, hr0, hgt, hs⟩ := h
     obtain ⟨i, o, S⟩ := seizeBorrowV1_spec e sweep b0 r0 w w' hs
     have hm0 := List.mem_of_find?_eq_some hf
-    have hu0 := borrowUnsafeV1_of e sweep b0 r0 hr0 hgt
+    have hu0 := borrowUnsafe_of_gt e b0 r0 hr0 hgt
     refine ⟨fun b hb _ hsafe => ?_, by unfold NodupB; rw [S.borrows, flagV1_ids]; exact hn, S.vaults, S.counter, S.vaultBal, S.offsets⟩
     have hne : ¬ (b.id = b0.id) := by
       intro he
@@ -1340,9 +1329,9 @@ theorem blockV1_keepsB1 (e : Env) (batch : Nat) (w w' : World) (hU : AppsUnique 
     have r := borrowPassV1_rel e batch w1 w' (hr.2.2.2.2 hb) h
     exact ⟨KeepsB1.trans h1 r.1, r.2.1⟩
 
-/-- generation 1 `MsgLiquidateBorrow`: what it keeps (judged against ITS threshold), and the vault side is untouched -/
+/-- generation 1 `MsgLiquidateBorrow` (since fix f18ae51 the same test as the sweep): what it keeps, and the vault side is untouched -/
 theorem msgLiquidateBorrowV1_rel (e : Env) (id : Nat) (w w' : World) (hb : NodupB w)
-    (h : msgLiquidateBorrowV1 e id w = some w') : KeepsBMsg1 e w w' ∧ Removes e w w' ∧ NodupB w' := by
+    (h : msgLiquidateBorrowV1 e id w = some w') : KeepsB1 e w w' ∧ Removes e w w' ∧ NodupB w' := by
   unfold msgLiquidateBorrowV1 at h
   have hk := liquidateBorrowV1_keeps e false id w w' hb h
   exact ⟨fun b hb' hl hs => hk.1 b hb' hl hs, Removes.of_vaults_eq e w w' hk.2.2.1, hk.2.1⟩
